@@ -14,7 +14,9 @@
    A *grant* is an Access-Control-Allow-Origin header in the final response. *)
 EXTENDS Dispatch
 
-CONSTANTS StarWithCreds      \* design switch: FALSE = the design (credentials => echo the origin, never "*")
+CONSTANTS StarWithCreds,     \* design switch: FALSE = the design (credentials => echo the origin, never "*")
+          EmptyMeansAll,     \* design switch: FALSE = the design (an EMPTY allow_origins collection allows no origin at all)
+          StatusSucceeds     \* design switch: FALSE = the design (a raised HTTPStatus is a raised exception: not succeeded)
 
 VARIABLES wiring,    \* "none" | "enable" (App(cors_enable=True)) | "explicit" (App(middleware=[CORSMiddleware(..)]))
           cfg,       \* [ao: [star, set], ac: [star, set], eh: Seq(header name)]
@@ -41,11 +43,26 @@ NoOther == [kind |-> "none", pos |-> "before"]
      acac         pre-sets    Access-Control-Allow-Credentials: true   (no origin)
      allowacao    allow + acao
      presetall    pre-sets every Access-Control-* header, but no Allow
-     fail         raises an HTTP error before touching the response *)
-Behaviours == {"plain", "allow", "acao", "acac", "allowacao", "presetall", "fail"}
+     fail         raises an HTTP error (HTTPError) before touching the response
+   and, answering by RAISING (req_succeeded is False whenever an exception left the responder / sink -
+   HTTPStatus included, whatever its status code; so none of these can have a preflight approved):
+     st2allow     raises HTTPStatus(200, headers={Allow: GET, POST})
+     st3allow     sets Allow: GET, POST, raises HTTPMovedPermanently
+     st4allow     sets Allow: GET, POST, raises HTTPStatus(403)
+     st5          raises HTTPStatus(503)                       (no Allow)
+     st5allow     raises HTTPStatus(503, headers={Allow: GET, POST})
+     errallow     sets Allow: GET, POST, raises an HTTPError (403)
+     exc          raises a plain exception for which the app has a registered handler (answers 409)
+     excallow     sets Allow: GET, POST, then the same *)
+StatusBehaviours == {"st2allow", "st3allow", "st4allow", "st5", "st5allow"}
+RaisingBehaviours == StatusBehaviours \cup {"fail", "errallow", "exc", "excallow"}
+Behaviours == {"plain", "allow", "acao", "acac", "allowacao", "presetall"} \cup RaisingBehaviours
+Raises(beh) == beh \in RaisingBehaviours
+CountsAsSucceeded(beh) == ~Raises(beh) \/ (StatusSucceeds /\ beh \in StatusBehaviours)
 PRESET_ORIGIN == "https://preset.example"
 Preset(beh) ==
-    CASE beh = "allow"     -> [NoHeaders EXCEPT !.allow = Some({"GET", "POST"})]
+    CASE beh \in {"allow", "st2allow", "st3allow", "st4allow", "st5allow", "errallow", "excallow"}
+                           -> [NoHeaders EXCEPT !.allow = Some({"GET", "POST"})]
       [] beh = "acao"      -> [NoHeaders EXCEPT !.acao = PRESET_ORIGIN]
       [] beh = "acac"      -> [NoHeaders EXCEPT !.acac = "true"]
       [] beh = "allowacao" -> [NoHeaders EXCEPT !.allow = Some({"GET", "POST"}), !.acao = PRESET_ORIGIN]
@@ -57,7 +74,7 @@ Preset(beh) ==
 Xch(ok, hdr) == [succeeded |-> ok, hdr |-> hdr]
 ExchangeFor(o, m, p, beh) ==             \* o = Dispatch!Outcome(m, p)
     LET v == VisibleOf(m, p, o)
-    IN  CASE o.kind \in {"Responder", "Sink"} -> (IF beh = "fail" THEN Xch(FALSE, NoHeaders) ELSE Xch(TRUE, Preset(beh)))
+    IN  CASE o.kind \in {"Responder", "Sink"} -> Xch(CountsAsSucceeded(beh), Preset(beh))
           [] o.kind = "AutoOptions"           -> Xch(TRUE, [NoHeaders EXCEPT !.allow = Some(o.allow)])
           [] o.kind = "NotAllowed"            -> Xch(FALSE, [NoHeaders EXCEPT !.allow = Some(o.allow)])
           [] o.kind = "Static"                -> (IF v.hasAllow THEN Xch(TRUE, [NoHeaders EXCEPT !.allow = Some(v.allow)])
@@ -77,7 +94,10 @@ Seen(m, p, beh) == SeenFor(Outcome(m, p), m, p, beh)
 
 -----------------------------------------------------------------------------
 (* the policy *)
-Allowed(c, o) == o # ABSENT /\ (c.ao.star \/ o \in c.ao.set)
+(* what the configuration says (used by the clauses): the wildcard, or membership - an empty collection has no members *)
+ConfigAllows(c, o) == o # ABSENT /\ (c.ao.star \/ o \in c.ao.set)
+(* what the policy does *)
+Allowed(c, o) == ConfigAllows(c, o) \/ (EmptyMeansAll /\ o # ABSENT /\ ~c.ao.star /\ c.ao.set = {})
 CredOk(c, o)  == c.ac.star \/ o \in c.ac.set
 IsPreflight(rq, x) == x.succeeded /\ rq.m = "OPTIONS" /\ rq.acrm # ABSENT
 
@@ -148,7 +168,7 @@ A_rq == ans.rq
 A_in == ans.x.hdr
 A_out == ans.out
 Answered == ans.kind = "exchange"
-OriginOk == Allowed(cfg, A_rq.origin)
+OriginOk == ConfigAllows(cfg, A_rq.origin)
 MwAddedCreds == A_out.acac = "true" /\ A_in.acac = ABSENT
 MwAddedPreflight == \/ (A_out.acam.has /\ A_out.acam # A_in.acam)
                     \/ (A_out.acah # ABSENT /\ A_out.acah # A_in.acah)
@@ -176,6 +196,10 @@ AllowRemovedOnPreflight == (Answered /\ Pre) => ~A_out.allow.has
 DeniedPreflightWithdrawsGrants ==
     (Answered /\ Pre /\ ~A_in.allow.has) => /\ A_out.acao = ABSENT /\ ~A_out.acam.has /\ A_out.acah = ABSENT
                                             /\ A_out.acma = ABSENT /\ A_out.aceh = <<>>
+(* user code that answered by raising - HTTPStatus of any status code included - did not succeed: nothing is approved,
+   Allow stays *)
+NoApprovalAfterRaise == (Answered /\ Raises(ans.beh)) =>
+                            /\ ~ans.x.succeeded /\ ~MwAddedPreflight /\ A_out.allow = A_in.allow
 (* outside an approved / denied preflight the Allow header is never touched *)
 AllowOtherwiseKept == (Answered /\ ~Pre) => A_out.allow = A_in.allow
 =========================================================================
